@@ -299,24 +299,29 @@ func (h *H) merge(v, o *cluster.ClusterView, opt Opt, emit bool) (changed bool) 
 				}
 			}
 		}
-		// changed is reported whenever the membership or the version vector actually changed
-		// (guards of the theorem: every vector key is a member, member count within the cap)
-		if vvIn(dv) && capOK(dv2) && !changed {
+		// changed is reported whenever the membership or the version vector actually changed - every
+		// pair of views, no guard (C17_changed_sound): entries dropped by the prune in recomputeCounts
+		// (keys that are no members, truncation to MaxVersionVectorEntries) count as a change
+		if !changed {
 			diff := !sameMembers(dv.Members, dv2.Members)
+			what := "members"
 			for k, c := range dv.VV {
 				if dv2.VV[k] != c {
 					diff = true
+					what = fmt.Sprintf("version-vector entry %s: %d -> %d", k, c, dv2.VV[k])
 				}
 			}
 			for k, c := range dv2.VV {
 				if dv.VV[k] != c {
 					diff = true
+					what = fmt.Sprintf("version-vector entry %s: %d -> %d", k, dv.VV[k], c)
 				}
 			}
 			if diff {
-				h.o.Monitor("changed-unsound", in, "members or version vector differ before/after but changed = false")
+				h.o.Monitor("changed-unsound", in, "members or version vector differ before/after ("+what+") but changed = false")
 			}
 		}
+		h.o.Stats["merges-changed-soundness-checked"]++
 		_ = lowered
 	})
 	return changed
@@ -720,9 +725,9 @@ func (h *H) wireOps(n int) {
 // ---- the refuted clauses: the Coq witnesses, replayed on the real code ----
 
 // With MaxVersionVectorEntries = 1 and two members the prune in recomputeCounts drops a member's
-// entry; the next merge lowers it and reports changed = false (C17_vv_entry_monotone_refuted,
-// C17_changed_sound_refuted). The merges are emitted as cases (the model must agree); whether the
-// witness still reproduces is recorded in the report. With XV_C17_FINDINGS=1 it is raised as a monitor hit.
+// entry and the next merge lowers it (C17_vv_entry_monotone_refuted); since the repair of the changed
+// flag that merge returns changed = true. The merges are emitted as cases (the model must agree); whether
+// the witness still reproduces is recorded in the report. With XV_C17_FINDINGS=1 it is raised as a monitor hit.
 func (h *H) witnesses() {
 	asMonitor := os.Getenv("XV_C17_FINDINGS") == "1"
 	mkv := func(id string, maxEnt int) *cluster.ClusterView {
@@ -731,15 +736,17 @@ func (h *H) witnesses() {
 		h.incr(v, id)
 		return v
 	}
-	// (1) cap exceeded
+	// (1) cap exceeded: a member's entry is lowered (h.merge's changed-unsound monitor checks the flag)
 	wa, wb := mkv("a", 1), mkv("b", 1)
 	wab := snap(wa)
 	h.merge(wab, snap(wb), Opt{}, true)
 	before := dumpView(wab)
 	ch := h.merge(wab, snap(wa), Opt{}, true)
 	after := dumpView(wab)
-	rep := before.VV["b"] == 1 && after.VV["b"] == 0 && !ch
-	h.o.Info["witness_cap_exceeded_entry_lowered_and_changed_false"] = rep
+	_, bMember := after.Members["b"]
+	rep := bMember && before.VV["b"] == 1 && after.VV["b"] == 0
+	h.o.Info["witness_cap_exceeded_member_entry_lowered"] = rep
+	h.o.Info["witness_cap_exceeded_changed"] = ch
 	if rep {
 		h.o.Stats["witness:vv-cap-truncation-reproduced"]++
 		if asMonitor {
@@ -747,7 +754,10 @@ func (h *H) witnesses() {
 				fmt.Sprintf("MaxVersionVectorEntries=1, members {a,b}: entry of member b %d -> %d in a merge that returned changed=%v", before.VV["b"], after.VV["b"], ch))
 		}
 	}
-	// (2) a version-vector key that is not a member (RemoveMember(self); IncrementVersion(self))
+	// (2) regression of the changed flag (C17_changed_sound_regression): a version-vector key that is
+	// not a member (RemoveMember(b); IncrementVersion(b)) is dropped by the prune of the next merge -
+	// no member's entry is lowered, and the merge must say changed = true (before commit 53b1085 it
+	// returned false). The generic changed-unsound monitor inside h.merge decides; this records the replay.
 	nm := h.newView(0, 100)
 	h.add(nm, h.newState("a", "a", 1, 1, int(cluster.MemberStatusUp), 100))
 	h.add(nm, h.newState("b", "b", 1, 1, int(cluster.MemberStatusUp), 100))
@@ -759,13 +769,10 @@ func (h *H) witnesses() {
 	before = dumpView(nm)
 	ch = h.merge(nm, o, Opt{}, true)
 	after = dumpView(nm)
-	rep2 := before.VV["b"] == 1 && after.VV["b"] == 0 && !ch
-	h.o.Info["witness_nonmember_key_dropped_and_changed_false"] = rep2
-	if rep2 {
-		h.o.Stats["witness:vv-nonmember-key-reproduced"]++
-		if asMonitor {
-			h.o.Monitor("finding:vv-nonmember-key", lib.L(tView(before), tView(dumpView(o))), "version-vector entry of the removed node b dropped by a merge that returned changed=false")
-		}
+	dropped := before.VV["b"] == 1 && after.VV["b"] == 0
+	h.o.Info["regression_nonmember_key_dropped_and_changed_true"] = dropped && ch
+	if dropped {
+		h.o.Stats["regression:vv-nonmember-key-dropped"]++
 	}
 	// (3) same incarnation, different status: each side keeps its own state, changed=false both ways
 	up := mkv("a", 0)
